@@ -248,6 +248,20 @@ def eval_vtt_lang(assign):
     return v, "ok"
 
 
+def _sami_rewritten(cs, want):
+    """the set read from a SAMI document, written by SAMIWriter and read again: same languages, same cue texts"""
+    import pycaption
+
+    try:
+        cs2 = pycaption.SAMIReader().read(pycaption.SAMIWriter().write(cs))
+    except Exception as e:  # noqa
+        return [(f"sami-doc/rewritten/raises:{type(e).__name__}", {"err": str(e)[:200]})]
+    got = {l: [parsers.norm_line(c.get_text()) for c in cs2.get_captions(l)] for l in cs2.get_languages()}
+    if got != want or cs2.get_languages() != list(want):
+        return [("sami-doc/rewritten/cue-under-wrong-language-or-lost", {"got": got, "languages": cs2.get_languages(), "want": want})]
+    return []
+
+
 def eval_docs(variant):
     """generated multi-language documents; variant = (kind, params)"""
     import pycaption
@@ -294,6 +308,26 @@ def eval_docs(variant):
         got = {l: [parsers.norm_line(c.get_text()) for c in cs.get_captions(l)] for l in cs.get_languages()}
         if got != want or cs.get_languages() != ["en-US", "fr"]:
             v.append(("sami-doc/class-and-lang-attribute/cue-under-wrong-language-or-lost", {"got": got, "languages": cs.get_languages(), "want": want}))
+        else:
+            v += _sami_rewritten(cs, want)
+        return v, tuple(got)
+    elif kind == "sami-class-and-id":
+        # <P Class=ENCC ID=Source>: the paragraph has a language class and an id that the style sheet styles (the
+        # speaker lines of the SAMI specification's own example)
+        id_first = variant[1]
+        a_en, a_fr = ("ID=Source Class=ENCC", "ID=Source Class=FRCC") if id_first else ("Class=ENCC ID=Source", "Class=FRCC ID=Source")
+        doc = ("<SAMI><HEAD><STYLE TYPE=\"text/css\"><!--\nP { font-family: Arial; }\n.ENCC { Name: English; lang: en-US; }\n.FRCC { Name: French; lang: fr-FR; }\n#Source { color: red; }\n--></STYLE></HEAD><BODY>\n"
+               f"<SYNC start=1000><P {a_en}>one</P><P {a_fr}>un</P></SYNC>\n<SYNC start=2000><P Class=ENCC>two</P><P Class=FRCC>deux</P></SYNC>\n</BODY></SAMI>\n")
+        try:
+            cs = pycaption.SAMIReader().read(doc)
+        except Exception as e:  # noqa
+            return [(f"sami-doc/raises:{type(e).__name__}", {"err": str(e)[:200]})], "raises"
+        want = {"en-US": ["one", "two"], "fr-FR": ["un", "deux"]}
+        got = {l: [parsers.norm_line(c.get_text()) for c in cs.get_captions(l)] for l in cs.get_languages()}
+        if got != want or cs.get_languages() != ["en-US", "fr-FR"]:
+            v.append(("sami-doc/class-and-id/cue-under-wrong-language-or-lost", {"got": got, "languages": cs.get_languages(), "want": want}))
+        else:
+            v += [(k_.replace("sami-doc/", "sami-doc/class-and-id/"), d_) for k_, d_ in _sami_rewritten(cs, want)]
         return v, tuple(got)
     else:
         _, order, use_attr, quote = variant
@@ -320,6 +354,8 @@ def eval_docs(variant):
             got = [parsers.norm_line(c.get_text()) for c in cs.get_captions(wl)]
             if got != [f"{l[:2]}0", f"{l[:2]}1", f"{l[:2]}2"]:
                 v.append(("sami-doc/cue-under-wrong-language", {"lang": wl, "got": got}))
+        if not v:
+            v += _sami_rewritten(cs, {wl: [f"{l[:2]}0", f"{l[:2]}1", f"{l[:2]}2"] for l, wl in zip(langs, want_langs)})
         return v, tuple(want_langs)
 
 
@@ -432,6 +468,8 @@ def run_shard(d):
                     variants.append(("sami", order, use_attr, '"'))
         variants.append(("sami-class-and-lang", True))
         variants.append(("sami-class-and-lang", False))
+        variants.append(("sami-class-and-id", True))
+        variants.append(("sami-class-and-id", False))
         for var in variants:
             v, out = eval_docs(var)
             acc.case(("doc", var, os.environ.get("PYCAPTION_DEFAULT_LANG")), True, out, {"document_variant": var, "hashseed": os.environ.get("PYTHONHASHSEED"), "PYCAPTION_DEFAULT_LANG": os.environ.get("PYCAPTION_DEFAULT_LANG")})
